@@ -1534,3 +1534,26 @@ def static_len(body, o, depth=8):
             return n2
         return static_len(body, t['a'][0], depth - 1) if t['a'] else None
     return None
+
+
+def guard_params(body, site, depth=3, _seen=None):
+    """parameters of `body` that influence whether `site` is reached (like guard_influences, for parameter locals)"""
+    res = set()
+    _seen = _seen if _seen is not None else set()
+    if site in _seen or depth < 0:
+        return res
+    _seen.add(site)
+    for (s, yes, no) in body.control_deps(site):
+        t = body.term(s)
+        if t['k'] != 'switch' or op_place(t['a']) is None:
+            continue
+        sl = backward_slice(body, [op_place(t['a'])])
+        res |= sl.params
+        for l in sl.locals:
+            if l < len(body.locals) and body.locals[l] == 'bool':
+                ds = body.defs().get(l, [])
+                if ds and all(d[2] == 'assign' and d[3]['r']['k'] == 'use' and 'i' in d[3]['r']['a'][0] for d in ds):
+                    for d in ds:
+                        if d[3]['r']['a'][0]['i'] != 0:
+                            res |= guard_params(body, d[0], depth - 1, _seen)
+    return res
